@@ -235,6 +235,20 @@ CONTRACTS[(PATH, DEC + 'get_reduced_Pc')].result = _res(lambda a: (s_add(a['sele
 for _k in ('compute_Pb', 'compute_Pnb', 'compute_Plm', 'get_reduced_Pc'):
     CONTRACTS[(PATH, DEC + _k)].public_ensures = list(CONTRACTS[(PATH, DEC + _k)].ensures)
 
+CONTRACTS[(PATH, 'select_relevant_logits')] = Contract(
+    params={'logits': 'nd1:xreal2'},
+    # the default pre-selection satisfies the contract the decoder proof assumes of the configurable selector
+    ensures=['forall(lambda j: implies(0 <= j and j < len(result[0]), 0 <= result[0][j] and result[0][j] < len(logits) and logits[result[0][j]] > -10))',
+             'forall(lambda j, j2: implies(0 <= j and j < j2 and j2 < len(result[0]), result[0][j] < result[0][j2]))',
+             'len(result[0]) <= len(logits)'])
+
+CONTRACTS[(PATH, 'logprobs_max_deviation')] = Contract(
+    params={'log_probs': 'nd2:real'},
+    requires=['log_probs.shape[0] >= 1'],
+    # the quantity compared with the tolerance: the largest distance of a row sum of exp(log_probs) from 1
+    ensures=['forall(lambda i: implies(0 <= i and i < log_probs.shape[0], result >= ROWSUM(i) - 1 and result >= 1 - ROWSUM(i)))',
+             'exists(lambda i: 0 <= i and i < log_probs.shape[0] and (result == ROWSUM(i) - 1 or result == 1 - ROWSUM(i)))'])
+
 # ---------------------------------------------------------------------------------------------------
 # the decoder loop: the beam always holds pairwise distinct prefixes
 
@@ -619,7 +633,7 @@ _LADDERS = {
 for _k, _v in _LADDERS.items():
     CONTRACTS[(PATH, _k)].ladder = _v
 
-KEYS = [(MS_PATH, 'top_k')] + [(PATH, k) for k in ('get_new_prefixes_positions', 'get_old_prefixes_positions', 'find_new_prefixes', 'find_matching',
+KEYS = [(MS_PATH, 'top_k')] + [(PATH, k) for k in ('select_relevant_logits', 'logprobs_max_deviation', 'get_new_prefixes_positions', 'get_old_prefixes_positions', 'find_new_prefixes', 'find_matching',
                              'adjust_for_prefix_joining', DEC + '__call__', DEC + 'get_reduced_last_chars', 'get_continuation_mask',
                              DEC + 'compute_Pb', DEC + 'compute_Pnb', DEC + 'get_reduced_Pc')]
 # language-model bookkeeping (C03)
